@@ -560,7 +560,11 @@ impl TableStore {
         }
         let merged_table = self.save_table(merged_table)?;
         for table in &tables[1..] {
-            self.remove_head(table);
+            // The merged table is content-addressed, so it may be the very same
+            // file as one of the heads we merged. Don't remove the new head then.
+            if table.name() != merged_table.name() {
+                self.remove_head(table);
+            }
         }
         Ok((merged_table, lock))
     }
